@@ -2769,7 +2769,13 @@ def run_c14(ctx) -> Corr:
                 "the same path are started, the same contention repeated under two to four successive event loops of this "
                 "process (asyncio.run each), quiet loops before / between, objects created per loop or once per process, "
                 "every load judged (holder, contender, later quiet ones; loads with nothing else in flight also compared "
-                "with the model on the bytes the file held); "
+                "with the model on the bytes the file held); the same files (all valid / special ones, a rotating part of the "
+                "prefixes / mutations / random values, a missing file) loaded in fresh interpreters in which an APPLICATION has "
+                "defined classes of its own (persist_env.py): marshmallow schemas named like the library's NodeSchema / "
+                "ChildSchema / MessageSchema in modules of its own (before / after the library is imported, between two rounds of "
+                "loads), subclasses of the library's schemas and of its model / persistence / gateway / exception classes under "
+                "the same and under other names, unregistered look-alikes, DEBUG logging, the event loop in debug mode, earlier "
+                "use of the library's schemas; every such load judged and compared with the model's outcome for the same bytes; "
                 "oracle = the outcome is success or PersistenceReadError, a missing file is created holding the current "
                 "registry, an empty file gives an empty registry; model compared on outcome, the class raised inside, and "
                 "the registry of successful loads, both with the file state classified by the harness (real json.loads) "
@@ -2855,6 +2861,12 @@ def run_c14(ctx) -> Corr:
     files.append(("into-nonempty", json.dumps({"b": {"node_id": 1, "node_type": 2, "protocol_version": "q"}}).encode(), sample_registry()))
 
     results = []
+
+    # the same files in processes that are not the library's alone (persist_env.py): fresh interpreters in which an
+    # application has defined classes of its own; started here, they run beside the rest of this run
+    from . import persist_env
+
+    env_started = persist_env.start(ctx, files, [describe(cur) if cur else None for _l, _d, cur in files], describe(sample_registry()))
 
     async def impl():
         for label, data, cur in files:
@@ -3016,10 +3028,19 @@ def run_c14(ctx) -> Corr:
                 h = batch.ask("file " + state)
         dir_handles.append((h, state))
 
+    def expected_in_any_process(i: int):
+        """What loading file i gives: the model's answer where it was asked, else what this process saw."""
+        h, state = handles[i]
+        if not ctx.model_ok or h is None:
+            return results[i][0]
+        return batch[h] if state == "value" else batch[h].split(" created=")[0]
+
     if not ctx.model_ok:
+        persist_env.collect(corr, env_started, expected_in_any_process)
         return corr
     check_boolean_tables(corr)
     batch.run()
+    persist_env.collect(corr, env_started, expected_in_any_process)
     persist_loops.loop_compare(corr, batch, loop_pending)
     for c, (h, state) in zip(dir_cases, dir_handles):
         if h is None:
